@@ -492,6 +492,82 @@ pub fn run(tier: Tier) {
         ctx.violation(f.key, f.what, f.case);
     }
     ctx.add_part(part);
+    // pairs (F, G) that are SHORTER than (f, g) and still not reduced: (F, G) = round(rho * X^c * (f, g)) with
+    // rho in {1/2+, 3/4, 1-}, so that the rounded Babai quotient is +-X^c although every coefficient of (F, G)
+    // has fewer bits than the largest coefficient of (f, g)
+    let short: Tally = ns
+        .par_iter()
+        .map(|&n| {
+            let mut t = Tally::default();
+            let ms: &[i64] = if tier.thorough() { &[4, 12, 64, 1000, 1 << 12, 1 << 16, 1 << 20] } else { &[4, 64, 1000, 1 << 20] };
+            for &m in ms {
+                for (a, bb) in [(0usize, 1 % n), (n / 2, n - 1)] {
+                    for s in [0i64, 1] {
+                        for noisy in [false, true] {
+                            if noisy && m < 64 {
+                                continue;
+                            }
+                            let mut f: V = (0..n as i64).map(|i| if noisy { ((i * 5 + 1) % 5) - 2 } else { 0 }).collect();
+                            let mut g: V = (0..n as i64).map(|i| if noisy { ((i * 3 + 2) % 5) - 2 } else { 0 }).collect();
+                            f[a] += m;
+                            g[bb] += s * m;
+                            let base = Base { f: f.clone(), g: g.clone(), cf: vec![], cg: vec![], origin: format!("f = {}*X^{}{}, g = {}*X^{}{}", m, a, if noisy { " + noise" } else { "" }, s * m, bb, if noisy { " + noise" } else { "" }) };
+                            for c in [0usize, 1 % n, n - 1] {
+                                for (num, den, off) in [(3i64, 4i64, 0i64), (1, 2, 1), (1, 1, -1)] {
+                                    for sgn in [1i64, -1] {
+                                        let scale = |x: i64| -> i64 {
+                                            if x.abs() < m / 2 {
+                                                // noise terms: scaled and rounded towards zero
+                                                sgn * (x * num / den)
+                                            } else {
+                                                sgn * (x * num / den + off * x.signum())
+                                            }
+                                        };
+                                        let capf: V = poly::shift_z(&f.iter().map(|&x| scale(x)).collect::<V>(), c);
+                                        let capg: V = poly::shift_z(&g.iter().map(|&x| scale(x)).collect::<V>(), c);
+                                        t.cases += 1;
+                                        t.calls += 3;
+                                        match judge(&base, &capf, &capg, true) {
+                                            Ok(o) => {
+                                                if o.steps_changed {
+                                                    t.changed += 1;
+                                                }
+                                            }
+                                            Err((class, what)) => {
+                                                t.nviol += 1;
+                                                let key = format!("babai:{}:short-pair", class);
+                                                let what = format!("{} [{}; (F,G) = {}round({}/{} X^{} (f,g)){:+}]", what, base.origin, if sgn < 0 { "-" } else { "" }, num, den, c, off);
+                                                t.found.entry(key.clone()).or_insert_with(|| found(key, what, json!({"kind":"babai","f":f,"g":g,"F":capf,"G":capg})));
+                                            }
+                                        }
+                                    }
+                                }
+                            }
+                        }
+                    }
+                }
+            }
+            t
+        })
+        .reduce(Tally::default, reduce);
+    let mut part = Part::new(
+        "short_unreduced_pairs",
+        "every n: (f,g) = (m X^a [+ small dense noise], s m X^b [+ noise]) for m in {4,64,1000,2^20} (thorough: 7 values), s in {0,1}; (F,G) = +-round(rho X^c (f,g)) for rho in {3/4, 1/2 + one unit, 1 - one unit}, c in {0,1,n-1}: every coefficient of (F,G) is shorter than the largest of (f,g) and yet the rounded quotient is +-X^c; same oracle as the multiplier alphabet",
+    );
+    part.states = short.cases;
+    part.transitions = short.calls;
+    part.validated = short.cases;
+    part.exhaustive = true;
+    part.set("inputs_actually_reduced", json!(short.changed));
+    part.outcome(format!("reduced by one step x{}", short.changed));
+    part.outcome(format!("left unchanged x{}", short.cases - short.changed - short.nviol.min(short.cases - short.changed)));
+    if short.changed == 0 && short.nviol == 0 {
+        crate::ctx::machinery_error("C17: no short pair was changed by the reduction (vacuity guard)");
+    }
+    for (_, f) in short.found {
+        ctx.violation(f.key, f.what, f.case);
+    }
+    ctx.add_part(part);
     let comp: Vec<(usize, (u64, Vec<Found>))> = ns.par_iter().map(|&n| (n, u32_ntt_component(n))).collect();
     let mut part = Part::new("u32_ntt_component", "the 30-bit NTT used by the multi-modular reduction, every n in {2,...,1024}: ntt(X) lists n distinct roots of X^n+1 mod p; ntt(c x^j) = c w_k^j and intt(ntt(c x^j)) = c x^j for all j and c in {+-1, +-2, +-2^20, 2^28-3} (negative c are residues next to the modulus); intt(ntt(+-x^j) .* ntt(f)) = +-x^j f for every j and two small dense f (one reduction step with a monomial multiplier)");
     for (n, (c, f)) in comp {
